@@ -60,7 +60,7 @@ CHECKS = {
          "DESIGN.md 4.5, 5 (C09)"),
  "C10": ("model_checking",
          "TLA+ state machine of the interval adaptation, bisection loop and coordinate driver (Bisection.tla) with the root as an adversary, model-checked with TLC; every maximal behaviour replayed through the public inverter on a family of increasing functions; recorded (rank, sign, exact position) traces of randomised real runs validated by TLC against Trace_Bisection.tla",
-         "Because the search sees the function only through sign f(p), TLC's adversary construction covers every root (dyadic or not) up to 2^AMax widths away and every (max_iter, tol) of the grid: Bracket, Accurate, iteration bounds and termination are checked in every state. The code is bound to it in both directions: behaviours -> real runs (points compared one by one in exact dyadic arithmetic; accuracy judged at generous max_iter), real randomised runs -> trace validation.",
+         "Because the search sees the function only through sign f(p), TLC's adversary construction covers every root (dyadic or not) up to 2^AMax widths away and every (max_iter, tol) of the grid: Bracket, Accurate, iteration bounds and termination are checked in every state. The code is bound to it in both directions: behaviours -> real runs (points compared one by one in exact dyadic arithmetic; accuracy judged at generous max_iter), real randomised runs in float64 and float32 -> trace validation. As an extra, the bracket invariant is discharged as an inductive invariant over unbounded integers by Apalache (tla/apalache/BisectionInd.tla).",
          "Functions are continuous and strictly increasing (recorded signs are checked to be monotone). float64. Accuracy is judged only for runs that max_iter cannot have cut short; evaluation-point equality, exact-hit return and bracket discipline are implementation-layer (drift notes, not violations).",
          "DESIGN.md 4.3, 5 (C10)"),
  "C11": ("exploration",
@@ -70,7 +70,7 @@ CHECKS = {
          "DESIGN.md 4.10, 5 (C11)"),
  "C12": ("model_checking",
          "TLA+ machine over wrapper trees (Unwrap.tla: build / unwrap / train phases) model-checked with TLC; every tree TLC prints is built from the real wrapper classes and flowjax.wrappers.unwrap compared with TLC's term; per-leaf digest traces of both real training loops validated by TLC against Trace_Unwrap.tla",
-         "TLC enumerates every wrapper tree up to 5 (quick) / 7 (thorough) nodes over the five wrapper kinds, containers and vmapped construction, checks ExactlyOnce / InnerFirst for every order the recursion may take and FrozenBitIdentical under arbitrary optimiser steps; each tree is an implementation test (value of unwrap = TLC's term, idempotence, no wrapper left, parameter count of the ravelled constructor = TLC's trainable set) and, for a third of them, a training run of either loop with the counting optimiser, SGD(lr=1e3) or Adam whose digests TLC validates. Real flows with frozen subsets and method transparency (m vs unwrap(m), bit-identical) complete it.",
+         "TLC enumerates every wrapper tree up to 5 (quick) / 7 (thorough) nodes over the five wrapper kinds, containers and 0-2 levels of vmapped construction, checks ExactlyOnce / InnerFirst for every order the recursion may take and FrozenBitIdentical under arbitrary optimiser steps; each tree is an implementation test (value of unwrap = TLC's term, idempotence, no wrapper left, parameter count of the ravelled constructor = TLC's trainable set) and, for a third of them, a training run of either loop with the counting optimiser, SGD(lr=1e3) or Adam whose digests TLC validates. Real flows with frozen subsets and method transparency (m vs unwrap(m), bit-identical) complete it.",
          "exp, softplus, tanh, where, norm are evaluated with NumPy in float64 when interpreting TLC's term (trusted base). Leaves are identified by value (distinct by construction). WeightNormalization constructed under filter_vmap cannot be built in this environment (equinox 0.13.8) and is excluded from the batched cases.",
          "DESIGN.md 4.4, 5 (C12)"),
  "C13": ("model_checking",
@@ -85,12 +85,12 @@ CHECKS = {
          "DESIGN.md 5 (C14)"),
  "C15": ("model_checking",
          "TLA+ state machine of fit_to_data (FitToData.tla, Batching.tla) model-checked with TLC; recorded event traces of the real fit_to_data validated against Trace_FitToData.tla by TLC; TLC-enumerated helper cases replayed into get_batches/train_val_split",
-         "TLC exhausts the data-flow model (every split, every batch choice, symmetric rows, every batch size) for the clauses of C15 as invariants; every recorded execution of the real loop over a grid of (n, batch_size, val_prop, condition, epochs) is accepted or rejected by TLC against the same clauses at every step. Right level: the property is a statement about every history of a loop with state.",
+         "TLC exhausts the data-flow model (every split, every batch choice, symmetric rows, every batch size) for the clauses of C15 as invariants; every recorded execution of the real loop over a grid of (n, batch_size, val_prop, condition, epochs) -- scripted runs with tagged rows and real training runs of flows with the library's own loss and real optimisers -- is accepted or rejected by TLC against the same clauses at every step; six corruptions of a recording must each be rejected at the clause they violate (binding self-test). Right level: the property is a statement about every history of a loop with state.",
          "Rows are identified by an index tag; the loss function, optimiser and data are supplied through the public API (no source hooks). The P layer assumes the documented epoch structure (training pass then validation pass). Bounded: n <= 60, 1-4 epochs.",
          "DESIGN.md 4.1, 5 (C15)"),
  "C16": ("model_checking",
          "TLA+ state machines FitToData.tla / FitVariational.tla model-checked with TLC over all loss orderings; every terminal state replayed into the real loops (scripted loss + counting optimiser); the runs' event traces validated by TLC against Trace_FitToData.tla / Trace_FitVariational.tla",
-         "TLC visits every ordering of L distinct losses x max_patience x max_epochs/steps x return_best (L=5 quick, L=7 thorough), checks the stopping and selection clauses as invariants and termination under fairness; each terminal state is an implementation test whose expected result TLC computed; traces of those and of randomised longer runs are validated step by step.",
+         "TLC visits every ordering of L distinct losses x max_patience x max_epochs/steps x return_best (L=5 quick, L=7 thorough), checks the stopping and selection clauses as invariants and termination under fairness; each terminal state is an implementation test whose expected result TLC computed; traces of those, of randomised longer runs and of real training runs (returned parameters identified by digest, validation losses as ranks) are validated step by step.",
          "Losses are scripted as a function of the number of optimiser updates (counting optimiser makes the returned parameter value identify the epoch/step). Ties between losses are outside the property's quantifier: the P layer accepts any argmin.",
          "DESIGN.md 4.1, 4.2, 5 (C16)"),
 }
